@@ -9,10 +9,11 @@ import (
 )
 
 // Slot identifies a resource as the *target artefact* names it.
-//   SPIR-V / naga IR : Kind "" , A = DescriptorSet/group, B = Binding
-//   HLSL             : Kind "u"|"t"|"b" (register class), A = space, B = register
-//   MSL              : Kind "buffer", A = 0, B = [[buffer(n)]] index
-//   GLSL             : Kind "buffer"|"uniform", A = 0, B = layout(binding=n)
+//
+//	SPIR-V / naga IR : Kind "" , A = DescriptorSet/group, B = Binding
+//	HLSL             : Kind "u"|"t"|"b" (register class), A = space, B = register
+//	MSL              : Kind "buffer", A = 0, B = [[buffer(n)]] index
+//	GLSL             : Kind "buffer"|"uniform", A = 0, B = layout(binding=n)
 type Slot struct {
 	Kind string
 	A, B uint32
@@ -111,9 +112,9 @@ type Result struct {
 
 // Options common to interpreters.
 type Options struct {
-	Dispatch  Dispatch
-	MaxSteps  int  // 0 => 2_000_000; exceeding returns *Unsupported{"step budget"}
-	TrapMode  bool // when false, target-undefined operations are evaluated with the "natural" result and not reported
+	Dispatch Dispatch
+	MaxSteps int  // 0 => 2_000_000; exceeding returns *Unsupported{"step budget"}
+	TrapMode bool // when false, target-undefined operations are evaluated with the "natural" result and not reported
 }
 
 func (o Options) StepBudget() int {
